@@ -24,7 +24,10 @@ fn kw_body<const L: usize>() {
     }
     kani::assume(L == 0 || !(b[0] >= b'0' && b[0] <= b'9'));
     let s = unsafe { std::str::from_utf8_unchecked(&b) };
-    let out = rename_keywords(s).as_bytes();
+    // the result may be a &str or an owned / borrowed string type (the harness does not depend on which)
+    let renamed = rename_keywords(s);
+    let renamed_str: &str = renamed.as_ref();
+    let out = renamed_str.as_bytes();
     let in_kw = is_in(KW, &b);
     let legal = if out.len() >= 2 && out[0] == b'r' && out[1] == b'#' {
         let rest = &out[2..];
